@@ -5,7 +5,7 @@ import shutil
 import sys
 import tempfile
 
-from . import Crash, Fault, FaultFS, enumerate_faults
+from . import Crash, Fault, FaultFS, enumerate_faults, enumerate_persistent_faults, error_path_entries
 
 
 def writer(d, value):
@@ -20,6 +20,53 @@ def writer(d, value):
         f.write('{"v": ')
         f.write(json.dumps(value))
         f.write('}')
+
+
+def retrying_writer(d, value):
+    """temp + replace, but a failed replace is "repaired" by remove + rename (loses the file if the error persists)."""
+    tmp, dst = os.path.join(d, 'tmp2'), os.path.join(d, 'retry.json')
+    with open(tmp, 'w') as f:
+        f.write(json.dumps({'v': value}))
+    try:
+        os.replace(tmp, dst)
+    except OSError:
+        os.remove(dst)
+        os.rename(tmp, dst)
+
+
+def second_stage(d, buffered):
+    """persistent errors and crashes on the error-handling path expose retrying_writer; one-shot faults do not."""
+    retrying_writer(d, 'old')
+    with FaultFS(d, buffered=buffered) as fs:
+        retrying_writer(d, 'new')
+    log = fs.log
+    dst = os.path.join(d, 'retry.json')
+    bad = {'one-shot': 0, 'persistent': 0, 'then-crash': 0}
+
+    def run(fault):
+        retrying_writer(d, 'old')
+        with FaultFS(d, fault, buffered=buffered) as f2:
+            try:
+                retrying_writer(d, 'new')
+            except (Crash, OSError):
+                pass
+        assert f2.fired
+        return f2, load(dst) not in ('old', 'new')
+
+    for fault in enumerate_faults(log):
+        f2, broken = run(fault)
+        bad['one-shot'] += broken
+        if fault.kind == 'ioerror':
+            for m in error_path_entries(log, fault, f2.log):
+                f3, broken = run(Fault('ioerror', fault.op, fault.prefix, fault.err, then_crash=m))
+                assert f3.crash_fired and f3.dead
+                bad['then-crash'] += broken
+    for fault in enumerate_persistent_faults(log):
+        f2, broken = run(fault)
+        if fault.persist == 'all':
+            assert not broken, fault        # remove fails too: the old file survives
+        bad['persistent'] += broken
+    assert bad['one-shot'] == 0 and bad['persistent'] > 0 and bad['then-crash'] > 0, bad
 
 
 def load(p):
@@ -66,6 +113,7 @@ def main():
                 bad_atomic += load(os.path.join(d, 'atomic.json')) not in ('old', 'new')
                 bad_inplace += load(os.path.join(d, 'inplace.json')) not in ('old', 'new')
             assert n > 10 and bad_atomic == 0 and bad_inplace > 0, (n, bad_atomic, bad_inplace)
+            second_stage(d, buffered)
             # operations outside the root are neither logged nor faulted; patches are removed on exit
             other = os.path.join(root, 'outside.txt')
             with FaultFS(d, Fault('crash', 0)) as fs:
